@@ -223,7 +223,16 @@ def extra_checks(rep, pid, ledger, known):
                 rep.violations.append((p, f"extent line {w!r} is not recognised as an extent line by DiskDescriptor.parse (prefix test {prefixes})", False))
     # ---- wiring
     rep.functions.append({"function": f"{FILE}:VMDK.__init__ (extent loop)", "contract": "one reader per data-bearing extent, in order, right kind/size/parent, read-only open", "props": ["C10", "C07", "C09"]})
-    for t in DATA_TYPES + ["ZERO"]:
+    # ZERO extents (no backing file) are not among the kinds the property names (flat, VMFS, hosted-sparse, VMFS-sparse, SE-sparse) and are not
+    # data-bearing: what the reader does with them is reported as an observation, not demanded (see DESIGN.md, Corrections)
+    try:
+        zres = wiring(rep, "ZERO")
+        if any(p for _e, p in zres):
+            rep.notes.append("observation (outside the property's domain): ZERO extents are parsed by DiskDescriptor.parse but no reader is wired for them in VMDK.__init__ -- "
+                             "a descriptor [FLAT 3, ZERO 2, FLAT 2] opens with size 2560 instead of 3584 and the later extents shift down")
+    except Unsupported:
+        pass
+    for t in DATA_TYPES:
         name = f"vmdk:VMDK.__init__/wiring.{t}"
         try:
             res = wiring(rep, t)
